@@ -30,6 +30,8 @@ def run_rules(mod, model, tier):
         mod.check(ctx)
         if tier == 'thorough' and hasattr(mod, 'check_thorough'):
             mod.check_thorough(ctx)
+        from .flow import generic_rules
+        generic_rules(ctx)
     except AnchorError as e:
         ctx.anchor_error = str(e)
     return ctx
